@@ -7,14 +7,14 @@ CLAIMED = {
  "C01": ("srv", "4 C01", "seeded search over inbound message sequences, handler completion orders and goroutine interleavings; history oracle: bipartite match of every outbound record to one inbound message (exactly-once, grouping, order, array shape, reply-after-handlers) at the final quiescent point"),
  "C03": ("srv", "4 C03", "seeded search over interleavings of reader/dispatcher/handlers with held handlers; happens-before oracle on handler exit/enter sequence numbers plus a progress oracle at every quiescent point"),
  "C06": ("srv", "4 C06", "seeded search with Concurrency 1..4; online running-handler counter invariant at every handler entry and LogRequest, work-conservation oracle at quiescent points, proven cancel-while-waiting sub-scenario"),
+ "C08": ("srv", "4 C08", "seeded search over stop causes (Stop, also from handlers and twice; early peer close; Recv failure with/without data, data+EOF; Send failure) placed at every channel-operation index, both Close-unblocks-Recv settings, traffic before and after the stop, then restart on a fresh channel; must/may status oracle, handler/ctx obligations, goroutine census, servers_active delta, restart probe"),
+ "C09": ("srv", "4 C09", "seeded search over Notify/Callback from handlers and outside tasks with cancellable and fake-clock-deadline contexts, scripted peer answering in any order / late / duplicated / for unknown ids / never, colliding id spaces, Stop; exactly-once return, unique payload attribution and no-stray-output oracles"),
+ "C10": ("srv", "4 C10", "seeded search over mixed workloads (calls, batches, pushes, callbacks, cancellations, stop, Recv failure) through an instrumented channel whose Send/Recv/Close can be preempted half-way; overlap counters, Close count and record-shape checks"),
  "C07": ("srv", "4 C07", "seeded search with ids from a pool of 3 and CancelRequest at arbitrary points; must/may oracle over arrival, handler and reply-send sequence numbers"),
 }
 PENDING = {
  "C04": "check not built yet in this session (client reply matching under a scripted peer) - planned, see DESIGN.md 4 C04",
  "C05": "check not built yet in this session - planned, see DESIGN.md 4 C05",
- "C08": "check not built yet in this session - planned, see DESIGN.md 4 C08",
- "C09": "check not built yet in this session - planned, see DESIGN.md 4 C09",
- "C10": "check not built yet in this session - planned, see DESIGN.md 4 C10",
  "C11": "check not built yet in this session - planned, see DESIGN.md 4 C11",
  "C12": "check not built yet in this session - planned, see DESIGN.md 4 C12",
  "C18": "check not built yet in this session - planned, see DESIGN.md 4 C18",
